@@ -5,6 +5,7 @@ import Sx.Lemmas.ShadowSize
 import Sx.Lemmas.ShadowCbs
 import Sx.Lemmas.LoopBound
 import Sx.Props.C19
+import Sx.Lemmas.CastFacts
 /-
   C08 — memory safety for all air data, chip states and buffer sizes.
 
@@ -315,5 +316,66 @@ example : ¬CbLen 16 (.rx (List.replicate 16 0) 200) ∧ CbLen 16 (.rx [1, 2, 3]
   refine ⟨fun h => absurd h.1 (by decide), ⟨by decide, rfl⟩, trivial⟩
 
 example : memBad .oobPacket ∧ memBad .oobShadow ∧ memBad .oobCaller ∧ memBad .nullDeref ∧ memBad .divZero ∧ memBad .shiftNeg := by decide
+
+/-! ## Float → integer conversions (the class `castRange` that `C08_memory_safe` leaves out)
+
+    Three of the driver's conversions are proved defined for **every** input here; the remaining
+    ones (packet RSSI refinement, frequency error, bit rate, deviation, beacon timers) are covered
+    for their documented ranges by the C12 / C14 theorems (`C12_packet_rssi`, `C12_*_frequency_error`,
+    `C12_*_bitrate`, `C12_fdev`, `C14_every_interval`: each says `= some …`) and otherwise by the
+    sanitizer builds. -/
+
+/-- the class of undefined behaviour these theorems are about -/
+def castBad (u : UB) : Prop := u = .castRange
+
+/-- **C08, `sx127x_set_frequency`.** For every `uint64_t` argument, handle and answer of the bus:
+    the conversion `(uint64_t)((frequency << 19) / 32e6f)` is defined, the call never reaches
+    undefined behaviour. -/
+theorem C08_cast_set_frequency (f : UInt64) :
+    (∃ d, Model.frfOf f = some d) ∧ DM.SafeI castBad (fun _ => True) (fun _ => True) (Model.setFrequency f) := by
+  obtain ⟨d, hd⟩ := cast_set_frequency f
+  refine ⟨⟨d, hd⟩, ?_⟩
+  unfold Model.setFrequency
+  rw [hd]
+  exact DM.SafeI_swrite _ _
+
+/-- **C08, `sx127x_get_frequency`.** For every content of the frequency registers:
+    `(uint64_t)(raw * 32e6f)` is defined. -/
+theorem C08_cast_get_frequency :
+    (∀ raw : UInt32, ∃ v, Model.freqOfRaw raw = some v) ∧
+    DM.SafeI castBad (fun _ => True) (fun _ => True) Model.getFrequency := by
+  refine ⟨cast_get_frequency, ?_⟩
+  unfold Model.getFrequency
+  apply DM.SafeI_bind (DM.SafeI_sread _ _)
+  intro raw
+  obtain ⟨v, hv⟩ := cast_get_frequency raw
+  rw [hv]
+  exact DM.SafeI_pure _
+
+/-- **C08, `sx127x_lora_set_ppm_offset`.** For every frequency error (any `int32_t`, in fact any
+    integer), every content of the frequency registers (zero included: the quotient is then an
+    infinity or NaN and is refused by the range check), every handle and answer: the conversion to
+    `int8_t` is only reached with a value in range. -/
+theorem C08_cast_ppm (err : Int) :
+    DM.SafeI castBad (fun _ => True) (fun _ => True) (Model.loraSetPpmOffset err) := by
+  unfold Model.loraSetPpmOffset Model.checkModulation
+  apply DM.SafeI_bind
+  · apply DM.SafeI_bind DM.SafeI_getH; intro h
+    split
+    · exact DM.SafeI_fail _
+    · exact DM.SafeI_pure _
+  intro _
+  apply DM.SafeI_bind C08_cast_get_frequency.2
+  intro frequency
+  dsimp only
+  split
+  · exact DM.SafeI_fail _
+  · rename_i hg
+    have hg' : (F.gt (Model.ppmFloat err frequency) (.fin (-129)) && F.lt (Model.ppmFloat err frequency) (.fin 128)) = true := by
+      simpa using hg
+    have h12 := Bool.and_eq_true_iff.mp hg'
+    obtain ⟨v, hv⟩ := cast_ppm _ h12.1 h12.2
+    rw [hv]
+    exact DM.SafeI_swrite _ _
 
 end Sx
